@@ -32,6 +32,12 @@ def param_key(op: list):
 
 def apply_op(pool: dict, op: list, params: dict | None = None) -> str:
     """circgen.apply_op plus Parameter-valued bs / ps / loss calls (`params`: key -> Parameter)"""
+    if op[0] == "copyf":  # ["copyf", new, src]: copy(freeze_parameters=True); the model sees a plain copy (for_model)
+        try:
+            pool[op[1]] = pool[op[2]].copy(freeze_parameters=True)
+        except Exception as e:  # noqa: BLE001
+            return exc_class(e)
+        return "ok"
     key = param_key(op)
     if key is None or params is None:
         return cg.apply_op(pool, op)
@@ -120,9 +126,15 @@ def diff(a: dict, b: dict, tol: float = 1e-12):
     return None
 
 
+def for_model(prog: list) -> list:
+    """the program as the driver knows it: a copy with frozen Parameters is a copy (Parameters are never re-set in these
+    histories, so a Parameter is its value)"""
+    return [["copy", *op[1:]] if op[0] == "copyf" else op for op in prog]
+
+
 def well_formed(prog: list) -> bool:
     """circgen.well_formed on the real ops (pseudo-ops such as ["read", ...] are skipped)"""
-    return cg.well_formed([op for op in prog if op[0] != "read"])
+    return cg.well_formed(for_model([op for op in prog if op[0] != "read"]))
 
 
 # --------------------------------------------------------------------------- size bookkeeping
@@ -186,6 +198,10 @@ class Book:
         self.ptab: dict = {}
         self.p_param = p_param
         self.size = Size()
+        # families (used by the C08 family stream): how many runs of mergeable swaps an id holds at its top level, and which
+        # ids hold the very same component objects (copy() and a + b are shallow)
+        self.mergeable: dict = {}
+        self.shares: dict = {}
 
     def reg(self, cid: str, ports: int, free: int | None = None, grp: bool = False) -> None:
         self.size.w.setdefault(cid, 0)
@@ -253,6 +269,74 @@ class Book:
         self.prog.append(["plus", new, a, b])
         self.reg(new, self.ports[a], self.ports[a], self.has_group.get(a, False) or self.has_group.get(b, False))
         return new
+
+    def copyf(self, new: str, src: str) -> str:
+        """copy(freeze_parameters=True): a deep copy, shares nothing with its source"""
+        self.size.copy(new, src)
+        self.prog.append(["copyf", new, src])
+        self.reg(new, self.ports[src], self.free[src], self.has_group.get(src, False))
+        self.mergeable[new] = self.mergeable.get(src, 0)
+        return new
+
+    def relate(self, new: str, *srcs: str) -> None:
+        """`new` was made from `srcs` by copy() / + : same component objects"""
+        self.mergeable[new] = sum(self.mergeable.get(x, 0) for x in srcs)
+        for x in srcs:
+            self.shares.setdefault(new, set()).add(x)
+            self.shares.setdefault(x, set()).add(new)
+
+    def swap(self, cid: str, modes: list | None = None) -> list:
+        """a mode_swaps call that moves something: a permutation without being the identity, on >= 2 (given) modes"""
+        rng = self.rng
+        n = self.ports[cid]
+        if modes is None:
+            modes = rng.sample(range(n), rng.randint(2, n))
+        tgt = list(modes)
+        while tgt == list(modes):
+            rng.shuffle(tgt)
+        pairs = [[a, b] for a, b in zip(modes, tgt)]
+        rng.shuffle(pairs)
+        op = ["swaps", cid, pairs]
+        self.size.prim(op)
+        self.prog.append(op)
+        return pairs
+
+    def swap_run(self, cid: str, pattern: str | None = None) -> str | None:
+        """>= 2 mode swaps at the top level of `cid` that compress_mode_swaps can merge: next to each other, separated by a
+        component on modes the later swap does not touch, or following a swap that is blocked"""
+        rng = self.rng
+        n = self.ports[cid]
+        if n < 2:
+            return None
+        pattern = pattern or rng.choice(["two", "two", "three", "component-between", "blocked-then-two"])
+        if n < 3 and pattern in ("component-between", "blocked-then-two"):
+            pattern = "two"
+        if pattern == "two":
+            self.swap(cid)
+            self.swap(cid)
+        elif pattern == "three":
+            self.swap(cid)
+            self.swap(cid)
+            self.swap(cid)
+        elif pattern == "component-between":
+            later = rng.sample(range(n), rng.randint(2, n - 1))
+            m = rng.choice([x for x in range(n) if x not in later])
+            self.swap(cid)
+            op = cg.op_ps(cid, m, rng.choice(CIRCLE)) if rng.random() < 0.7 else ["barrier", cid, [m]]
+            self.size.prim(op)
+            self.prog.append(op)
+            self.swap(cid, later)
+        else:
+            x, y = rng.sample(range(n), 2)
+            self.swap(cid)
+            op = cg.op_bs(cid, x, y, *rng.choice(PYTH))
+            self.size.prim(op)
+            self.prog.append(op)
+            rest = [z for z in range(n) if z != x]
+            self.swap(cid, [x, rng.choice(rest)])  # touches a blocked mode: stays
+            self.swap(cid)                          # merges into the one before
+        self.mergeable[cid] = self.mergeable.get(cid, 0) + 1
+        return pattern
 
     def small_heralded(self, cid: str) -> str:
         """2- or 3-mode sub-circuit with one herald (always grouped when added; gives its parent an ancilla)"""
